@@ -345,8 +345,12 @@ class SFixed(Template[_FixedTemplateArg], AssignableType):
 
                         return Result(
                             raw=Value[Signed[Result._width]](
-                                self._val.lsb(rest=overflow).msb(rest=cutoff).signed
-                                + do_round
+                                (
+                                    self._val.lsb(rest=overflow).msb(rest=cutoff).signed
+                                    + do_round
+                                )
+                                .lsb(Result._width)
+                                .signed
                             )
                         )
             else:
@@ -355,11 +359,15 @@ class SFixed(Template[_FixedTemplateArg], AssignableType):
                 ), "invalid overflow_style {}".format(overflow_style)
                 sign_bit = self._val.msb()
 
-                overflow_bitcnt = min(selfleft - left, self._width - 1)
-                overflow_bits = self._val.lsb(rest=1).msb(overflow_bitcnt)
+                if overflow >= self._width:
+                    # the target range lies below the least significant source bit
+                    does_overflow = not sign_bit and self._val
+                    does_underflow = sign_bit
+                else:
+                    overflow_bits = self._val.lsb(rest=1).msb(overflow)
 
-                does_overflow = not sign_bit and overflow_bits
-                does_underflow = sign_bit and ~overflow_bits
+                    does_overflow = not sign_bit and overflow_bits
+                    does_underflow = sign_bit and ~overflow_bits
 
                 if selfright >= right:
                     zeros = selfright - right
@@ -414,20 +422,19 @@ class SFixed(Template[_FixedTemplateArg], AssignableType):
                                 else Signed[2](0)
                             )
 
-                        selected_bits = self._val.lsb(rest=overflow + 1).msb(
-                            rest=cutoff
+                        truncated = self._val.lsb(rest=overflow).msb(rest=cutoff).signed
+                        overflow_or_full = (
+                            does_overflow or truncated == Signed[Result._width].max()
                         )
-                        overflow_or_full = does_overflow or not ~selected_bits
 
                         return Result(
                             raw=Value[Signed[Result._width]](
                                 choose_first(
                                     (does_underflow, Signed[Result._width].min()),
                                     (overflow_or_full, Signed[Result._width].max()),
-                                    default=self._val.lsb(rest=overflow)
-                                    .msb(rest=cutoff)
-                                    .signed
-                                    + do_round,
+                                    default=(truncated + do_round)
+                                    .lsb(Result._width)
+                                    .signed,
                                 )
                             )
                         )
@@ -438,39 +445,12 @@ class SFixed(Template[_FixedTemplateArg], AssignableType):
                     raw=self._val.resize(Result._width, zeros=selfright - right)
                 )
             else:
-                cutoff = right - selfright
-
-                if round_style is FixedRoundStyle.TRUNCATE:
-                    return Result(
-                        raw=Value[Signed[Result._width]](
-                            self._val.msb(rest=cutoff).signed.resize(Result._width)
-                        )
-                    )
-                else:
-                    assert (
-                        round_style is FixedRoundStyle.ROUND
-                    ), "invalid round_style {}".format(round_style)
-
-                    if cutoff == 1:
-                        do_round = (
-                            Signed[2](1)
-                            if self._val[cutoff - 1] and self._val[cutoff]
-                            else Signed[2](0)
-                        )
-                    else:
-                        do_round = (
-                            Signed[2](1)
-                            if self._val[cutoff - 1]
-                            and (self._val[cutoff] or self._val[cutoff - 2 : 0])
-                            else Signed[2](0)
-                        )
-
-                    return Result(
-                        raw=Value[Signed[Result._width]](
-                            self._val.msb(rest=cutoff).signed.resize(Result._width)
-                            + do_round
-                        )
-                    )
+                # one more integer bit holds the rounding carry (and all of the
+                # source when it lies below the target), the branch for
+                # selfleft > left then applies the overflow style
+                return SFixed[left + 1 : selfright](
+                    raw=self._val.resize(left + 2 - selfright)
+                ).resize_fn(left, right, round_style, overflow_style)
 
 
 #
@@ -702,7 +682,7 @@ class UFixed(Template[_FixedTemplateArg], AssignableType):
                 assert (
                     overflow_style is FixedOverflowStyle.SATURATE
                 ), "invalid overflow_style {}".format(overflow_style)
-                overflow_bits = self._val.msb(selfleft - left)
+                overflow_bits = self._val.msb(min(overflow, self._width))
 
                 does_overflow = bool(overflow_bits)
 
@@ -775,36 +755,9 @@ class UFixed(Template[_FixedTemplateArg], AssignableType):
                     raw=self._val.resize(Result._width, zeros=selfright - right)
                 )
             else:
-                cutoff = right - selfright
-
-                if round_style is FixedRoundStyle.TRUNCATE:
-                    return Result(
-                        raw=Value[Unsigned[Result._width]](
-                            self._val.msb(rest=cutoff).unsigned.resize(Result._width)
-                        )
-                    )
-                else:
-                    assert (
-                        round_style is FixedRoundStyle.ROUND
-                    ), "invalid round_style {}".format(round_style)
-
-                    if cutoff == 1:
-                        do_round = (
-                            Unsigned[1](1)
-                            if self._val[cutoff - 1] and self._val[cutoff]
-                            else Unsigned[1](0)
-                        )
-                    else:
-                        do_round = (
-                            Unsigned[1](1)
-                            if self._val[cutoff - 1]
-                            and (self._val[cutoff] or self._val[cutoff - 2 : 0])
-                            else Unsigned[1](0)
-                        )
-
-                    return Result(
-                        raw=Value[Unsigned[Result._width]](
-                            self._val.msb(rest=cutoff).unsigned.resize(Result._width)
-                            + do_round
-                        )
-                    )
+                # one more integer bit holds the rounding carry (and all of the
+                # source when it lies below the target), the branch for
+                # selfleft > left then applies the overflow style
+                return UFixed[left + 1 : selfright](
+                    raw=self._val.resize(left + 2 - selfright)
+                ).resize_fn(left, right, round_style, overflow_style)
